@@ -78,6 +78,11 @@ pub struct Case {
     pub limits: Vec<u8>,
     /// searches: (text word, use vector, logical) combined with each filter
     pub searches: Vec<(Option<u8>, Option<u8>, bool)>,
+    /// > 0: that many synthetic documents are added first, under an index set without the unique
+    /// indexes (a collection larger than Collection::MAX_SEARCH_LIMIT; filters over the unique
+    /// fields are redirected to `age` / `tags`)
+    #[serde(default)]
+    pub large: u16,
 }
 
 pub fn case_strategy() -> impl Strategy<Value = Case> {
@@ -88,7 +93,50 @@ pub fn case_strategy() -> impl Strategy<Value = Case> {
         prop::collection::vec(0u8..44, 4..7),
         prop::collection::vec((prop::option::of(0u8..10), prop::option::of(any::<u8>()), any::<bool>()), 0..3),
     )
-        .prop_map(|(docs, removed, filters, limits, searches)| Case { docs, removed, filters, limits, searches })
+        .prop_map(|(docs, removed, filters, limits, searches)| Case { docs, removed, filters, limits, searches, large: 0 })
+}
+
+/// Collections beyond the documented page bound: 1001-1300 synthetic documents plus generated ones.
+pub fn large_case_strategy() -> impl Strategy<Value = Case> {
+    (
+        1001u16..1300,
+        prop::collection::vec(DocSpec::strategy(), 0..20),
+        prop::collection::vec(any::<u16>(), 0..8),
+        prop::collection::vec(f_strategy(), 4..8),
+        prop::collection::vec(0u8..44, 2..4),
+    )
+        .prop_map(|(large, docs, removed, filters, limits)| Case { docs, removed, filters: filters.iter().map(remap_large).collect(), limits, searches: vec![], large })
+}
+
+/// Without the unique indexes: filters over `name` go to `age`, over `ukeys` to `tags`.
+fn remap_large(f: &F) -> F {
+    match f {
+        F::Field(i, q) => F::Field(
+            match *i % 8 {
+                1 => 2,
+                6 => 4,
+                x => x,
+            },
+            q.clone(),
+        ),
+        F::Or(v) => F::Or(v.iter().map(remap_large).collect()),
+        F::And(v) => F::And(v.iter().map(remap_large).collect()),
+        F::Not(x) => F::Not(Box::new(remap_large(x))),
+    }
+}
+
+fn synthetic(i: u16) -> DocSpec {
+    DocSpec {
+        name: (i % 14) as u8,
+        age: ((i / 3) % 5) as u8,
+        score: ((i % 9) as i8) - 4,
+        tags: vec![(i % 8) as u8, ((i / 8) % 8) as u8],
+        opt: if i % 3 == 0 { None } else { Some((i % 7) as u8) },
+        ukeys: vec![],
+        attrs: vec![((i % 7) as u8, 1)],
+        body: vec![(i % 10) as u8],
+        emb: (i % 100) as u8,
+    }
 }
 
 fn key_of(index: u8, k: u8) -> Fv {
@@ -250,10 +298,11 @@ async fn build(case: &Case) -> Result<(Sys2, Model), String> {
     install_clocks(1_700_000_000_000);
     let be = Backend::new(BackendKind::Plain);
     let db = connect(be.store(), false).await.map_err(|e| e.to_string())?;
-    let idx = IndexSet::all();
+    let idx = if case.large > 0 { IndexSet { name: false, ukeys: false, pair: false, ..IndexSet::all() } } else { IndexSet::all() };
     let col = open(&db, &idx).await.map_err(|e| e.to_string())?;
     let mut model = Model::new();
-    for spec in &case.docs {
+    let synth: Vec<DocSpec> = (0..case.large).map(synthetic).collect();
+    for spec in synth.iter().chain(case.docs.iter()) {
         let f = spec.fields();
         if unique_conflict(&model, &idx, None, &f) {
             continue;
@@ -283,6 +332,7 @@ pub fn run_case(case: &Case, ctx: &mut CaseCtx) -> Result<(), String> {
         let col = &sys.col;
         let n = model.len();
         let mut nontrivial = false;
+        let mut large_hit = false;
         for (fi, f) in case.filters.iter().enumerate() {
             let filter = to_filter(f);
             if filter.validate_complexity().is_err() {
@@ -296,7 +346,12 @@ pub fn run_case(case: &Case, ctx: &mut CaseCtx) -> Result<(), String> {
             }
             let want: Vec<u64> = if undefined { all.clone() } else { eval(f, &model).into_iter().collect() };
             if all != want {
-                return Err(format!("filter {fi} {f:?}: query_all_ids = {all:?}, set-algebra reading over the live documents = {want:?}"));
+                let clip = |v: &Vec<u64>| if v.len() > 40 { format!("{} ids, first {:?} .. last {:?}", v.len(), &v[..5], &v[v.len() - 5..]) } else { format!("{v:?}") };
+                return Err(format!("filter {fi} {f:?}: query_all_ids = {}, set-algebra reading over the live documents = {}", clip(&all), clip(&want)));
+            }
+            if case.large > 0 && all.len() > Collection::MAX_SEARCH_LIMIT {
+                ctx.count("filters_matching_more_than_the_page_bound", 1);
+                large_hit = true;
             }
             if undefined {
                 ctx.count("filters_with_empty_and_self_consistency_only", 1);
@@ -402,7 +457,7 @@ pub fn run_case(case: &Case, ctx: &mut CaseCtx) -> Result<(), String> {
                 }
             }
         }
-        ctx.nontrivial = nontrivial;
+        ctx.nontrivial = if case.large > 0 { large_hit } else { nontrivial };
         ctx.count("filters", case.filters.len() as u64);
         Ok(())
     })
@@ -417,6 +472,7 @@ fn regression_cases() -> Vec<Case> {
         filters: vec![F::Field(2, RQ::Ge(0)), F::And(vec![F::Field(2, RQ::Ge(0))]), F::Field(1, RQ::Ge(0)), F::Field(3, RQ::Le(15))],
         limits: vec![1, 2, 3],
         searches: vec![],
+        large: 0,
     }]
 }
 
@@ -439,5 +495,15 @@ pub fn run(r: &mut Runner) {
         (12_000, 400_000),
         case_strategy,
         run_case,
+    );
+    r.sub(
+        "large_collections",
+        "collections LARGER than the documented page bound (Collection::MAX_SEARCH_LIMIT = 1000): 1001-1299 synthetic documents plus 0-19 generated ones and up to 8 removals, under the index set without the unique indexes, x 4-7 generated filter trees (filters over the unique fields redirected to age / tags) x limits {None, 0, 1, generated, n+1, MAX+1} x both entry points; same oracle: query_all_ids is the complete match set however large, a bounded or unbounded page is the first / last min(limit, MAX) of it. Non-trivial = some filter matched more than MAX documents",
+        (12, 300),
+        large_case_strategy,
+        |c, ctx| {
+            let r = run_case(c, ctx);
+            r
+        },
     );
 }
